@@ -32,7 +32,28 @@ def re_compile(E, args, kwargs, node):
 
 
 def list_sort(E, ref, h, kwargs):
-    raise Unsupported('list.sort')
+    """list.sort(key=...): assumed library contract -- the list becomes a stable ascending (by key) permutation of
+    itself; the call may raise what the key function / comparisons raise.  The call and its arguments are recorded
+    on the ghost trace so that contracts can pin down what exactly was sorted and by which key."""
+    _assumed(E, 'list.sort(key=f): stable ascending permutation by f (ties keep their relative order); reverse=True reverses '
+                'the order of unequal keys but also keeps ties in original order')
+    n = E.list_len(h)
+    E.trace.append(('list_sort', ref.addr, dict(kwargs), repr(h.base), len(h.items)))
+    ops.opaque_op_may_raise(E, 'list.sort comparisons')
+    nm = E.fresh('sorted')
+    new = VSeq(nm, n if not isinstance(n, int) else I(n), shape=getattr(h.base, 'shape', None) if h.base is not None and not h.items else None)
+    E.ghost.setdefault('sorted_of', {})[nm] = (h.base.name if h.base is not None else None)
+    h.base = new
+    h.items = []
+    return NONE
+
+
+def itemgetter(E, args, kwargs, node):
+    return E.alloc(HObj(None, {'k': args[0]}, name='itemgetter'))
+
+
+def cmp_to_key(E, args, kwargs, node):
+    return E.alloc(HObj(None, {'f': args[0]}, name='cmp_to_key'))
 
 
 def _const(v):
@@ -112,6 +133,8 @@ def roman_to_roman(E, args, kwargs, node):
 
 
 TABLE = {
+    'operator.itemgetter': itemgetter,
+    'functools.cmp_to_key': cmp_to_key,
     'roman.toRoman': roman_to_roman,
     'Acquisition.aq_base': aq_base,
     'zExceptions.Unauthorized': exc_ctor('Unauthorized'),
